@@ -50,9 +50,15 @@ Record snapshot := mkSnap {
 (* result of Context.ClientIP: ErrNoClientIPResolver, or the address produced by resolver id *)
 Inductive cip := CIPNone | CIP (id : nat).
 
+(* what a context shows: ClientIP() and the pattern of Route() (None = no route) *)
+Definition view := (cip * option bytes)%type.
+
 Inductive obs :=
 | ObsErr (e : option err) (s : option snapshot)   (* create: error class, accessors of the returned route *)
-| ObsProbe (k : kind) (c : cip)                   (* which handler kind ran, and what ClientIP returned in it *)
+| ObsProbe (k : kind) (own clone clonewith : view) (down : option view)
+    (* which handler kind ran; what ClientIP / Route().Pattern() give in the probing middleware on its own context,
+       on c.Clone() and on c.CloneWith(c.Writer(), c.Request()); and in the route handler, which receives that
+       CloneWith copy from the middleware (None when no recording handler ran) *)
 | ObsAnnot (v : option nat)
 | ObsSnap (s : option snapshot)                   (* None: nothing registered under the key *)
 | ObsPanic.
@@ -89,10 +95,12 @@ Definition snap_eqb (a b : snapshot) : bool :=
   bytes_eqb (sn_pattern a) (sn_pattern b) && bytes_eqb (sn_hostname a) (sn_hostname b) && bytes_eqb (sn_path a) (sn_path b)
   && Nat.eqb (sn_params a) (sn_params b) && Bool.eqb (sn_redirect a) (sn_redirect b) && Bool.eqb (sn_ignore a) (sn_ignore b)
   && opt_eqb Nat.eqb (sn_resolver a) (sn_resolver b) && Nat.eqb (sn_nmws a) (sn_nmws b).
+Definition view_eqb (a b : view) : bool := cip_eqb (fst a) (fst b) && opt_eqb bytes_eqb (snd a) (snd b).
 Definition obs_eqb (a b : obs) : bool :=
   match a, b with
   | ObsErr e s, ObsErr e' s' => opt_eqb err_eqb e e' && opt_eqb snap_eqb s s'
-  | ObsProbe k c, ObsProbe k' c' => kind_eqb k k' && cip_eqb c c'
+  | ObsProbe k a b c d, ObsProbe k' a' b' c' d' =>
+      kind_eqb k k' && view_eqb a a' && view_eqb b b' && view_eqb c c' && opt_eqb view_eqb d d'
   | ObsAnnot v, ObsAnnot v' => opt_eqb Nat.eqb v v'
   | ObsSnap s, ObsSnap s' => opt_eqb snap_eqb s s'
   | ObsPanic, ObsPanic => true
